@@ -50,6 +50,8 @@ type Contract struct {
 	NoVerify    bool // repo contract assumed but body not verified (listed in evidence)
 	Props       []string
 	RecGroup    string
+	Dead        []string // program points that are unreachable by design (e.g. under a trusted spec)
+	Forbid      []string // callees that must not be called (directly or in inlined code)
 }
 
 type GhostDecl struct {
@@ -320,6 +322,10 @@ func parseClause(c *Contract, word, rest, src string) error {
 		c.Props = strings.Fields(rest)
 	case "recgroup":
 		c.RecGroup = strings.TrimSpace(rest)
+	case "dead":
+		c.Dead = append(c.Dead, strings.TrimSpace(rest))
+	case "forbid":
+		c.Forbid = append(c.Forbid, strings.TrimSpace(rest))
 	case "requires":
 		cl, err := mk("requires", rest)
 		if err != nil {
